@@ -288,6 +288,18 @@ class Program:
     def func(self, qual):
         f = self.funcs.get(qual)
         if f is None:
+            # `module.Class.method` inherited from a base class or mixin of the package: analyse the inherited
+            # body with `self` typed as the subclass
+            parts = qual.split('.')
+            if len(parts) == 3 and parts[1] in self.classes and self.classes[parts[1]].module == parts[0]:
+                g = self.lookup(parts[1], parts[2])
+                if g is not None and g.cls != parts[1]:
+                    import copy
+                    f = copy.copy(g)
+                    f.cls = parts[1]
+                    f.qual = qual
+                    self.funcs[qual] = f
+                    return f
             raise AnalysisError('anchor vanished: function %s not found' % qual)
         return f
 
@@ -359,21 +371,32 @@ class Program:
         for name, f in cache.methods.items():
             if not f.is_property or f is self.roles['sql_prop']:
                 continue
-            if not f.nested:
-                continue
             uses_sql = any(isinstance(n, ast.Attribute) and dotted(n) == 'self.' + sql_name for n in walk_shallow(f.node))
             rets_nested = any(isinstance(n, ast.Return) and isinstance(n.value, ast.Name) and n.value.id in f.nested
                               for n in walk_shallow(f.node))
-            if uses_sql and rets_nested:
+            # ... or binds the sql exec into a module-level function (functools.partial(<func>, self._sql))
+            rets_partial = any(isinstance(n, ast.Return) and isinstance(n.value, ast.Call)
+                               and (dotted(n.value.func) or '').split('.')[-1] == 'partial'
+                               and len(n.value.args) >= 2 and dotted(n.value.args[1]) == 'self.' + sql_name
+                               for n in walk_shallow(f.node))
+            if uses_sql and (rets_nested or rets_partial):
                 self.roles['sql_retry_prop'] = f
         # transaction manager: contextmanager method executing a BEGIN statement and yielding
-        for name, f in cache.methods.items():
-            if not f.is_contextmanager:
-                continue
+        def executes_begin(f, depth=0):
             for n in walk_shallow(f.node):
                 if isinstance(n, ast.Call) and n.args and isinstance(n.args[0], ast.Constant) \
                         and isinstance(n.args[0].value, str) and n.args[0].value.strip().upper().startswith('BEGIN'):
-                    self.roles['txn_manager'] = f
+                    return True
+                # ... or in a private helper method it calls
+                if isinstance(n, ast.Call) and depth < 3 and (dotted(n.func) or '').startswith('self._'):
+                    h = cache.methods.get(dotted(n.func)[5:])
+                    if h is not None and h is not f and not h.is_property and not h.is_contextmanager \
+                            and executes_begin(h, depth + 1):
+                        return True
+            return False
+        for name, f in cache.methods.items():
+            if f.is_contextmanager and executes_begin(f):
+                self.roles['txn_manager'] = f
         if 'txn_manager' not in self.roles:
             raise AnalysisError('anchor vanished: no contextmanager method of Cache executes BEGIN')
         # public transact: contextmanager whose body is a with on the manager
